@@ -10,6 +10,13 @@ registers and anonymous / named / local labels. Oracles (vlib/fmttok.py):
   (2) machine-code column == bytes appended (wildcards only over a pending label displacement),
   (3) x86: tokenised objdump line of the same bytes vs. the tokenised AsmJit line, for cases whose bytes satisfy the
       database encoding rule of the case (vlib/xdec.py) - an opinion that does not depend on our name tables.
+Round 12: (4) the `{..|..}` explanation of an imm8 under kExplainImms against what the bits mean (fmttok.explain_expected: SDM
+semantics, confirmed on the host CPU for the doubtful families), in the logger stream and in a Formatter sweep over many imm8 values
+of every explainable instruction; (5) logger layout: inline comments (exact text, also longer than kMaxCommentSize), indentation
+and padding of both columns on every case; (6) directives: bind / align / embed / embed_data_array (every TypeId incl. abstract
+and vector types, `.repeat`) / embed_label / embed_label_delta / section / comment through the logging Assembler - the data lines
+must denote exactly the bytes appended - and the same nodes through Formatter::format_node; (7) operand shapes: register-home
+memory `[&v+8]`, label base with index `[L1+rax*4+8]`, `rep {ecx}`, label and virtual-register names of 40..1000 characters.
 """
 import collections
 import json
@@ -124,11 +131,25 @@ def op_token(op):
     m = op[1]
     b = m["base"] or ("none", 0)
     i = m["index"] or ("none", 0)
-    return "M:%d:%s:%s:%s:%s:%d:%d:%d:%d:%s" % (m["size"], b[0], b[1], i[0], i[1], m["shift"], m["disp"], m["seg"], m["bcst"], m["addr"])
+    return "M:%d:%s:%s:%s:%s:%d:%d:%d:%d:%s%s" % (m["size"], b[0], b[1], i[0], i[1], m["shift"], m["disp"], m["seg"], m["bcst"], m["addr"], ":1" if m.get("home") else "")
+
+
+def layout_for(cid):
+    """logger layout of a case (a function of the case id only, so that every flag set of the case shares it):
+    (indentation of code, padding of a regular line, padding of the machine-code column, inline comment 0 none | 1 short | 2 longer than
+    Globals::kMaxCommentSize)"""
+    h = (cid * 2654435761 + 0x9E3779B9) & 0xFFFFFFFF
+    comment = 0 if h % 3 else (2 if (h >> 5) % 41 == 0 else 1)
+    return ([0, 0, 2, 4, 9][(h >> 8) % 5], [0, 0, 20, 44, 60, 200][(h >> 12) % 6], [0, 0, 12, 30][(h >> 16) % 4], comment)
+
+
+def lay_suffix(lay):
+    return "@%d,%d,%d,%d" % tuple(lay) if lay else ""
 
 
 def driver_line(c, kind, flags):
     ex = "-" if not c["extra"] else "%s:%s" % tuple(c["extra"])
+    kind = kind + lay_suffix(c.get("_lay"))
     return "%d %s %s %s %s %x %s %d %s" % (c["id"], kind, ",".join("%x" % f for f in flags), c["arch"], c["name"], c["opts"], ex,
                                            len(c["ops"]), " ".join(op_token(o) for o in c["ops"]))
 
@@ -177,12 +198,24 @@ def judge_x86_case(c, rec, st, mode, replay, names_factory, kind="asm"):
         if len(lines) != 1:
             st.viol.append(("x86:log-line-count", "emit produced %d log lines (%r) for: %s" % (len(lines), log[:200], line), replay))
             continue
-        pos, text, mc, comment = F.split_line(lines[0])
+        if kind == "asm":
+            pos, text, mc, comment, indent = F.split_log_line(lines[0], bool(r["ff"][0] & 1))
+            lay = c.get("_lay") or (0, 0, 0, 0)
+            want_c = F.expected_comment(c["id"], lay[3])
+            st.c["lines_with_inline_comment"] += len(r["ff"]) if want_c else 0
+            st.c["lines_with_indentation_or_padding"] += len(r["ff"]) if any(lay[:3]) else 0
+            if (comment if comment is not None else None) != want_c and not (comment is not None and want_c is not None and comment.rstrip() == want_c.rstrip()):
+                st.viol.append(("x86:comment", "inline comment %r printed as %r in `%s` (layout %s, flags 0x%x); case: %s" %
+                                ((want_c or "")[:60], (comment or "")[:60] if comment is not None else None, lines[0][:200], lay, r["ff"][0], line), replay))
+            elif want_c:
+                st.c["inline_comments_exact"] += len(r["ff"])
+        else:
+            pos, text, mc, comment = F.split_line(lines[0])
         parsed = F.parse_x86_text(text)
         st.c["lines_tokenised"] += 1
         groups = {}
         for ff in r["ff"]:
-            groups.setdefault(ff & 0x509 if kind != "asm" else ff & 0x9, []).append(ff)
+            groups.setdefault(ff & 0x519 if kind != "asm" else ff & 0x19, []).append(ff)
         for gk, ffs in groups.items():
             ff = ffs[0]
             names = names_factory(r)
@@ -195,7 +228,16 @@ def judge_x86_case(c, rec, st, mode, replay, names_factory, kind="asm"):
                 key = "x86:text:%s" % field
                 if field == "mnemonic":
                     key += ":" + c["name"]
+                if field == "explain":
+                    key = "x86:explain:" + c["name"]
                 st.viol.append((key, "%s; line `%s` (flags 0x%x) for case: %s" % (msg, text, ff, line), replay))
+            if (ff & 0x10) and any(op[0] == "I" for op in c["ops"]):
+                imm = [op[1] for op in c["ops"] if op[0] == "I"][-1]
+                if F.explain_expected(c["name"], imm, F.explain_vec_size(c)) is not None:
+                    st.c["imm_explanations_judged"] += len(ffs)
+                    st.c["imm_explanations_judged:" + ("logger" if kind == "asm" else "formatter")] += len(ffs)
+                elif any(o["kind"] == "imm" and o["deco"] for o in parsed["ops"]):
+                    st.c["imm_explanations_not_judged"] += len(ffs)
             if not diffs and not nov:
                 st.c["lines_judged_faithful"] += len(ffs)
                 st.flags(ffs)
@@ -273,6 +315,7 @@ def x86_worker(arg):
     lines = []
     for c in cases:
         c["_ff"] = flag_sets_for(frng, tier)
+        c["_lay"] = layout_for(c["id"])
         lines.append(driver_line(c, "asm", c["_ff"]))
     if not lines:
         return st.export()
@@ -357,7 +400,19 @@ def judge_a64(c, line, rec, st, replay, vnames=None, labels=None, kind="asm"):
         if len(lines) != 1:
             st.viol.append(("a64:log-line-count", "emit produced %d log lines (%r) for: %s" % (len(lines), r["log"][:200], line), replay))
             continue
-        pos, text, mc, comment = F.split_line(lines[0])
+        if kind == "asm":
+            pos, text, mc, comment, indent = F.split_log_line(lines[0], bool(r["ff"][0] & 1))
+            lay = c.get("_lay") or (0, 0, 0, 0)
+            want_c = F.expected_comment(c.get("_id", 0), lay[3])
+            st.c["lines_with_inline_comment"] += len(r["ff"]) if want_c else 0
+            st.c["lines_with_indentation_or_padding"] += len(r["ff"]) if any(lay[:3]) else 0
+            if comment != want_c and not (comment is not None and want_c is not None and comment.rstrip() == want_c.rstrip()):
+                st.viol.append(("a64:comment", "inline comment %r printed as %r in `%s` (layout %s, flags 0x%x); case: %s" %
+                                ((want_c or "")[:60], comment[:60] if comment is not None else None, lines[0][:200], lay, r["ff"][0], line), replay))
+            elif want_c:
+                st.c["inline_comments_exact"] += len(r["ff"])
+        else:
+            pos, text, mc, comment = F.split_line(lines[0])
         atoms = F.a64_atoms(text)
         st.c["lines_tokenised"] += 1
         mn, exp = F.a64_expected(line, r["pc"], r["l0"], vnames, labels)
@@ -415,7 +470,9 @@ def a64_worker(arg):
     lines = []
     for i, c in cases:
         c["_ff"] = flag_sets_for(frng, tier)
-        lines.append("%d asm %s a64 %s" % (i, ",".join("%x" % f for f in c["_ff"]), c["line"]))
+        c["_lay"] = layout_for(i)
+        c["_id"] = i
+        lines.append("%d asm%s %s a64 %s" % (i, lay_suffix(c["_lay"]), ",".join("%x" % f for f in c["_ff"]), c["line"]))
     if not lines:
         return st.export()
     rc, out, err = _run_driver(exe, lines)
@@ -445,13 +502,18 @@ def a64_worker(arg):
 X86_VREGS = []     # (k, rtype, name|None)
 for _k, (_t, _n) in enumerate([("gp8lo", "byte_v"), ("gp8lo", None), ("gp16", "word_v"), ("gp16", None), ("gp32", "counter"), ("gp32", None),
                                ("gp64", "ptr"), ("gp64", None), ("xmm", "vec_a"), ("xmm", None), ("ymm", "acc"), ("ymm", None),
-                               ("zmm", "wide"), ("zmm", None), ("k", "msk"), ("k", None), ("mm", "m64"), ("mm", None)]):
+                               ("zmm", "wide"), ("zmm", None), ("k", "msk"), ("k", None), ("mm", "m64"), ("mm", None),
+                               ("gp64", "a_rather_long_virtual_register_name_that_leaves_the_embedded_storage"), ("xmm", "vec_with_a_long_name_0123456789")]):
     X86_VREGS.append((_k, _t, _n))
 X86_GROUP = {"gp8lo": "gp", "gp8hi": "gp", "gp16": "gp", "gp32": "gp", "gp64": "gp", "xmm": "vec", "ymm": "vec", "zmm": "vec", "k": "k", "mm": "mm"}
 # (key kind, k, name, parent key)
 LABELS = [("a", 0, None, None), ("a", 1, None, None), ("g", 2, "main", None), ("g", 3, "other_1", None), ("l", 4, "loop", "g2"),
-          ("l", 5, "inner", "a0"), ("n", 6, "dbg", None), ("x", 7, "ext_fn", None), ("l", 8, "exit", "g3")]
-A64_VREGS = [(0, "x", "xptr"), (1, "x", None), (2, "w", "wcnt"), (3, "w", None), (4, "q", "qv"), (5, "q", None), (6, "d", "dv"), (7, "s", None)]
+          ("l", 5, "inner", "a0"), ("n", 6, "dbg", None), ("x", 7, "ext_fn", None), ("l", 8, "exit", "g3"),
+          # names beyond the small-buffer paths: ArenaString's embedded storage, StringTmp<256> of an instruction line
+          ("g", 9, "a_global_label_with_a_name_of_forty_chars", None), ("g", 10, "long_" + "n" * 300, None), ("l", 11, "local_of_a_long_parent_" + "m" * 40, "g10"),
+          ("n", 12, "anonymous_but_named_at_some_length_0123456789", None)]
+A64_VREGS = [(0, "x", "xptr"), (1, "x", None), (2, "w", "wcnt"), (3, "w", None), (4, "q", "qv"), (5, "q", None), (6, "d", "dv"), (7, "s", None),
+             (8, "x", "another_long_virtual_register_name_64")]
 
 
 def label_texts(ids, emitter_known=True):
@@ -499,6 +561,8 @@ def virtualise_x86(c, rng, with_vregs):
                     v = vreg(m[f][0])
                     if v is not None:
                         m[f] = (m[f][0], v)
+            if m["base"] and m["base"][0] in ("gp32", "gp64") and m["addr"] == "default" and rng.chance(1, 5):
+                m["home"] = 1        # the home slot of the (virtual) base register: `[&v+8]`
             if m["base"] is None and m["index"] is None and rng.chance(1, 3):
                 kind, k, _, _ = rng.choice(LABELS)
                 m["base"] = ("label", "%s%d" % (kind, k))
@@ -516,7 +580,7 @@ def virtualise_x86(c, rng, with_vregs):
 def virtualise_a64(line, rng, with_vregs):
     parts = line.split()
     toks = []
-    pool = {"x": [0, 1], "w": [2, 3], "q": [4, 5], "d": [6], "s": [7]}
+    pool = {"x": [0, 1, 8], "w": [2, 3], "q": [4, 5], "d": [6], "s": [7]}
 
     def v(kind, cur):
         if not with_vregs or rng.chance(1, 4):
@@ -601,7 +665,10 @@ def api_worker(arg):
             key = "%s%d" % (lkind, lk)
             mem = dict(size=4, base=("label", key), index=None, shift=0, disp=8, seg=0, bcst=0, addr="default")
             tmpl = [("jmp", [("L", key)]), ("call", [("L", key)]), ("jz", [("L", key)]),
-                    ("lea", [("R", areg, 3), ("M", dict(mem, size=0))]), ("mov", [("R", "gp32", 1), ("M", dict(mem, disp=-16))])]
+                    ("lea", [("R", areg, 3), ("M", dict(mem, size=0))]), ("mov", [("R", "gp32", 1), ("M", dict(mem, disp=-16))]),
+                    # a label base WITH an index register: `[L1+rax*4+8]`, `[L1+rcx-16]`
+                    ("mov", [("R", "gp32", 2), ("M", dict(mem, index=(areg, 0), shift=2))]),
+                    ("lea", [("R", areg, 5), ("M", dict(mem, size=0, index=(areg, 1), shift=0, disp=-16))])]
             for name, ops in tmpl:
                 for kind in ("fc", "fb", "fa", "fn"):
                     if kind in ("fc", "fb") and arch != "x64":
@@ -611,6 +678,47 @@ def api_worker(arg):
                     jobs.append((nid, kind, arch, c2, ffs))
                     lines.append(driver_line(c2, kind, ffs))
                     nid += 1
+    # kExplainImms: many imm8 values of every instruction whose immediate has a documented meaning (one form per name and vector width)
+    seen = set()
+    egen = G.Gen(rng.fork("explain"), False)
+    fixed_imms = [0, 1, 2, 3, 4, 5, 6, 7, 8, 0x0F, 0x10, 0x1B, 0x55, 0x7F, 0x80, 0x81, 0xAA, 0xE4, 0xFF]
+    for f in forms:
+        if F.explain_expected(f["name"], 0, 16) is None:
+            continue
+        mode = G.modes_of(f)[-1]
+        ops0 = egen.instantiate(f, mode, False)
+        if ops0 is None or not any(op[0] == "I" for op in ops0):
+            continue
+        width = F.explain_vec_size({"ops": ops0})
+        if (f["name"], width) in seen:
+            continue
+        seen.add((f["name"], width))
+        last = max(i for i, op in enumerate(ops0) if op[0] == "I")
+        imms = range(256) if tier == "thorough" else sorted(set(fixed_imms + [rng.below(256) for _ in range(14)]))
+        for imm in imms:
+            ops = [("I", imm) if i == last else op for i, op in enumerate(ops0)]
+            c2 = dict(id=nid, arch="x64" if mode == 64 else "x86", form=f["_idx"], name=f["name"], opts=0, extra=None, ops=ops, variant="explain")
+            ffs = [0x10, 0x30, 0x0] if tier == "quick" else [0x10, 0x30, 0x18, 0x0, 0x7FF & FULL]
+            jobs.append((nid, "fa", c2["arch"], c2, ffs))
+            lines.append(driver_line(c2, "fa", ffs))
+            nid += 1
+    # `rep {ecx}`: REP/REPNE string instructions with an explicit count register
+    for f in forms:
+        if f["name"] not in ("movs", "stos", "lods", "cmps", "scas", "ins", "outs"):
+            continue
+        for mode in G.modes_of(f):
+            for c in egen.cases_for_form(f, mode, 4):
+                if not c["opts"] & (G.OPT_REP | G.OPT_REPNE) or c["variant"].endswith(("oob", "illegal", "wrong")):
+                    continue
+                for et in (("gp64", 1) if mode == 64 else ("gp32", 1), ("gp32", 1), ("gp16", 1)):
+                    for kind in ("fa", "fn", "fc"):
+                        if kind == "fc" and c["arch"] != "x64":
+                            continue
+                        c2 = dict(c, id=nid, extra=et if kind != "fc" or rng.chance(1, 2) else (et[0], "v%d" % (6 if et[0] == "gp64" else 4 if et[0] == "gp32" else 2)), variant="rep-extra")
+                        ffs = flag_sets_for(rng, tier)
+                        jobs.append((nid, kind, c2["arch"], c2, ffs))
+                        lines.append(driver_line(c2, kind, ffs))
+                        nid += 1
     recs64 = isadb.a64_forms()
     first_rec = {}
     for r64 in recs64:
@@ -680,6 +788,12 @@ def api_worker(arg):
         st.c["api_calls_" + ("a64" if arch == "a64" else "x86")] += len(ffs)
         txt = c["line"] if arch == "a64" else driver_line(c, kind, [0])
         st.c["api_virtual_register_operands"] += len(re.findall(r":v\d+", txt)) * len(ffs)
+        if arch != "a64":
+            st.c["api_reg_home_operands"] += sum(1 for op in c["ops"] if op[0] == "M" and op[1].get("home")) * len(ffs)
+            st.c["api_label_base_with_index_operands"] += sum(1 for op in c["ops"] if op[0] == "M" and op[1]["base"] and op[1]["base"][0] == "label" and op[1]["index"]) * len(ffs)
+            st.c["api_rep_count_register_cases"] += len(ffs) if c.get("variant") == "rep-extra" else 0
+            st.c["api_explain_sweep_cases"] += len(ffs) if c.get("variant") == "explain" else 0
+        st.c["api_long_name_operands"] += len(re.findall(r"[L:](?:g9|g10|l11|n12)\b|:v(?:18|19)\b" if arch != "a64" else r"[L:](?:g9|g10|l11|n12)\b|:v8\b", txt if arch == "a64" else txt.split(" ", 4)[-1])) * len(ffs)
         for lk, what in (("a", "anonymous"), ("g", "named_global"), ("l", "local_with_parent"), ("n", "anonymous_with_name"), ("x", "external")):
             st.c["api_label_operands_" + what] += len(re.findall(r"[L:]%s\d+\b" % lk, txt if arch == "a64" else txt.split(" ", 4)[-1])) * len(ffs)
         if arch == "a64":
@@ -722,6 +836,223 @@ def api_worker(arg):
             if len(st.samples) < 3 and kind in ("fc", "fb") and any(isinstance(op[2], str) for op in c["ops"] if op[0] == "R"):
                 st.samples.append({"api": kind, "case": driver_line(c, kind, ok[0]["ff"]), "text": ok[0]["log"]})
     return st.export()
+
+
+# ---------------------------------------------------------------------------------------------------------------------
+# directives: what the logger writes for bind / align / embed / embed_data_array / embed_label / embed_label_delta / section /
+# comment (the log is a transcript of the code buffer: data bytes included), and Formatter::format_node for the same nodes
+# ---------------------------------------------------------------------------------------------------------------------
+
+DIR_TYPES = sorted(F.TYPE_SIZE) + [32, 33]
+NAME_LENGTHS = [3, 7, 12, 40, 300, 1000]       # beyond ArenaString's embedded storage, beyond StringTmp<256> / <512> of the log lines
+
+
+def gen_dir_cases(rng, n, tier):
+    cases = []
+    for i in range(n):
+        arch = rng.choice(["x64", "x64", "x86", "a64"])
+        kind = "dirn" if rng.chance(1, 3) else "dir"
+        what = rng.choice(["bind", "bind", "align", "embed", "data", "data", "data", "elabel", "edelta", "section", "comment"])
+        c = dict(id=i, arch=arch, kind=kind, what=what)
+        if what == "bind":
+            c["lk"] = rng.choice(["a", "n", "g", "l"])
+            ln = rng.choice(NAME_LENGTHS)
+            c["name"] = ("nm%d_" % i + "x" * ln)[:max(ln, 6)]
+            c["args"] = "%s %s" % (c["lk"], c["name"])
+        elif what == "align":
+            c["mode"], c["n"] = rng.below(3), rng.choice([1, 2, 4, 8, 16, 32, 64])
+            c["args"] = "%d %d" % (c["mode"], c["n"])
+        elif what == "embed":
+            c["n"] = rng.choice([1, 2, 3, 4, 5, 7, 8, 16, 31, 64, 200]) * (4 if arch == "a64" else 1)
+            c["args"] = "%d %d" % (c["n"], rng.below(1 << 30))
+        elif what == "data":
+            c["type"], c["count"], c["rep"] = rng.choice(DIR_TYPES), 1 + rng.below(5), rng.choice([1, 1, 2, 3, 4])
+            c["args"] = "%d %d %d %d" % (c["type"], c["count"], c["rep"], rng.below(1 << 30))
+        elif what == "elabel":
+            c["size"], c["bound"] = rng.choice([0, 4, 8, 8, 2, 1]), rng.below(2)
+            c["args"] = "%d %d" % (c["size"], c["bound"])
+        elif what == "edelta":
+            c["size"], c["b1"], c["b2"] = rng.choice([0, 4, 4, 8, 2, 1]), rng.below(2), rng.below(2)
+            c["args"] = "%d %d %d" % (c["size"], c["b1"], c["b2"])
+        elif what == "section":
+            c["name"] = ".s%d" % i
+            c["args"] = c["name"]
+        else:
+            c["text"] = "note_%d_%s" % (i, "y" * rng.choice([0, 5, 40, 300]))
+            c["args"] = c["text"]
+        c["_lay"] = layout_for(i)
+        c["_ff"] = flag_sets_for(rng, "quick")[:2] if tier == "quick" else flag_sets_for(rng, "quick")
+        cases.append(c)
+    return cases
+
+
+def dir_line(c):
+    return "%d %s%s %s %s %s %s" % (c["id"], c["kind"], lay_suffix(c["_lay"]), ",".join("%x" % f for f in c["_ff"]), c["arch"], c["what"], c["args"])
+
+
+def judge_dir(c, rec, st):
+    fam = "a64" if c["arch"] == "a64" else "x86"
+    regsize = 4 if c["arch"] == "x86" else 8
+    line = dir_line(c)
+    replay = {"part": "lines", "lines": [line]}
+    nodes = c["kind"] == "dirn"
+    what = c["what"]
+
+    def bad(field, msg, r):
+        st.viol.append(("%s:%s:%s" % ("node" if nodes else "log", what, field), "%s; text %r (flags 0x%x, bytes %s); case: %s" % (msg, r["log"][:300], r["ff"][0], r["bytes"][:80], line), replay))
+
+    for r in rec["res"]:
+        ff = r["ff"][0]
+        st.c["dir_calls"] += 1
+        st.c["dir_calls_%s" % c["kind"]] += 1
+        if r["err"] != 0:
+            st.c["dir_refused:" + what] += 1
+            if what == "align" and fam == "a64" and c["mode"] == 0:
+                continue        # documented: code alignment at an offset that is not a multiple of the instruction size is refused
+            if what in ("bind", "align", "embed", "section", "comment") or (what == "data" and c["type"] != 44):
+                bad("refused", "valid directive refused with error %d" % r["err"], r)
+            continue
+        lines = [l for l in r["log"].split("\n") if l.strip()]
+        raw = bytes.fromhex(r["bytes"])
+        before = len(st.viol)
+        lay = c["_lay"]
+        tclass = ""
+        if what == "data":
+            tclass = ":abstract-type" if c["type"] in (32, 33) else ":vector-type" if F.type_size(c["type"], regsize) > 8 else ""
+        if nodes and tclass and len(lines) == 1 and not re.match(r"^\s*\.\w", lines[0]):
+            bad("text" + tclass, "EmbedDataNode of TypeId %d printed without a data directive: %r" % (c["type"], lines), r)
+            continue
+        if nodes and what != "comment" and len(lines) == 1:
+            # the node's own inline comment: `<text><padding>; <comment>` (not cut: kMaxCommentSize is the logger's limit)
+            full = F.expected_comment(c["id"], lay[3], clamp=False)
+            if full:
+                if not lines[0].endswith("; " + full):
+                    bad("comment", "node comment %r printed as %r" % (full[:40], lines[0][-60:]), r)
+                else:
+                    lines[0] = lines[0][:-len("; " + full)].rstrip()
+                    st.c["inline_comments_exact"] += 1
+            elif ";" in lines[0]:
+                bad("comment", "a comment column although the node has no comment", r)
+        if what == "align":
+            if not nodes:
+                if fam == "x86" and c["n"] > 1 and len(raw) != (-r["off0"]) % c["n"]:
+                    bad("bytes", "align %d at offset %d appended %d bytes" % (c["n"], r["off0"], len(raw)), r)
+                if raw or lines:
+                    m = re.match(r"^\s*\.?align\s+(\d+)\b", lines[0]) if len(lines) == 1 else None
+                    if not m or int(m.group(1)) != c["n"]:
+                        bad("text", "alignment %d logged as %r" % (c["n"], lines), r)
+            else:
+                m = re.match(r"^\s*\.?align\s+(\d+)\s*\((\w+)\)", lines[0]) if len(lines) == 1 else None
+                if not m or int(m.group(1)) != c["n"] or (c["mode"] < 2 and m.group(2) != ("code" if c["mode"] == 0 else "data")):
+                    bad("text", "AlignNode(mode %d, %d) printed as %r" % (c["mode"], c["n"], lines), r)
+        elif what in ("embed", "data"):
+            if what == "embed":
+                tsize, count, rep = 1, c["n"], 1
+            else:
+                tsize, count, rep = F.type_size(c["type"], regsize), c["count"], c["rep"]
+            if not nodes:
+                if len(raw) != tsize * count * rep:
+                    bad("bytes", "%d items of %d bytes repeated %d times appended %d bytes" % (count, tsize, rep, len(raw)), r)
+                elif len(lines) != 1:
+                    bad("line-count" + tclass, "%d bytes appended, %d log lines" % (len(raw), len(lines)), r)
+                else:
+                    denoted, why = F.data_line_bytes(F.split_log_line(lines[0], False)[1] if ";" not in lines[0] else lines[0].split(";")[0], fam)
+                    if denoted is None:
+                        bad("text", why, r)
+                    elif denoted != raw:
+                        bad("text", "the line denotes %s, appended were %s" % (denoted.hex()[:64], raw.hex()[:64]), r)
+                    else:
+                        st.c["data_bytes_transcribed"] += len(raw)
+            else:
+                m = re.match(r"^\s*\.(\w+)\s*\{Count=(\d+) Repeat=(\d+) TotalSize=(\d+)\}", lines[0]) if len(lines) == 1 else None
+                kw = F.DATA_KW[fam].get(m.group(1)) if m else None
+                # the directive names the item width (items wider than 8 bytes / of odd width are shown in smaller units, like the logger does)
+                kw_ok = kw == tsize if tsize in (1, 2, 4, 8) else (kw is not None and tsize % kw == 0)
+                if not m or not kw_ok or int(m.group(2)) != count or int(m.group(3)) != rep or int(m.group(4)) not in (count * tsize, count * tsize * rep):
+                    bad("text" + tclass, "EmbedDataNode(%d-byte type, %d items, repeat %d) printed as %r" % (tsize, count, rep, lines), r)
+        elif what == "bind":
+            lid = r["lab"][0]
+            want = F.label_text(c["lk"], lid, "%s_%d_%d" % (c["name"], c["id"], rec["res"].index(r)), "p_%s_%d_%d" % (c["name"], c["id"], rec["res"].index(r)))
+            if len(lines) != 1:
+                bad("line-count", "%d lines" % len(lines), r)
+            else:
+                if nodes:
+                    text, comment, mc = lines[0], None, None
+                else:
+                    pos, text, mc, comment, indent = F.split_log_line(lines[0], bool(ff & 1))
+                if text.strip() != want + ":":
+                    bad("name", "label %s printed as %r" % (want[:80], text.strip()[:120]), r)
+                want_c = F.expected_comment(c["id"], lay[3]) if not nodes else None
+                if (comment.rstrip() if comment is not None else None) != (want_c.rstrip() if want_c else None):
+                    bad("comment", "inline comment %r printed as %r" % ((want_c or "")[:40], (comment or "")[:40] if comment is not None else None), r)
+                elif want_c:
+                    st.c["inline_comments_exact"] += 1
+                if mc:
+                    bad("machine-code", "a label line carries machine code `%s`" % mc[:40], r)
+                st.c["label_name_chars_judged"] += len(want)
+        elif what in ("elabel", "edelta"):
+            size = c["size"] or regsize
+            names = ["L%d" % x for x in r["lab"]]
+            if what == "elabel":
+                pat = r"^\s*\.(\w+)\s+(\S+)\s*$" if not nodes else r"^\s*\.(label)\s+(\S+)\s*$"
+            else:
+                pat = r"^\s*\.(\w+)\s+\(\s*(\S+)\s+-\s+(\S+)\s*\)\s*$" if not nodes else r"^\s*\.(label)\s+\(\s*(\S+)\s+-\s+(\S+)\s*\)\s*$"
+            m = re.match(pat, lines[0]) if len(lines) == 1 else None
+            if not m:
+                bad("text", "printed as %r" % lines, r)
+            else:
+                if list(m.groups()[1:]) != names:
+                    bad("label", "labels %s printed as %s" % (names, list(m.groups()[1:])), r)
+                if not nodes and F.DATA_KW[fam].get(m.group(1)) != size:
+                    bad("size", "a %d-byte item printed as `.%s`" % (size, m.group(1)), r)
+            if not nodes:
+                want_b = bytes(size)
+                if what == "edelta" and c["b1"] and c["b2"]:
+                    want_b = (8).to_bytes(size, "little")
+                if raw != want_b:
+                    bad("bytes", "appended %s, expected %s" % (raw.hex(), want_b.hex()), r)
+        elif what == "section":
+            nm = ("%s_%d_%d" % (c["name"], c["id"], rec["res"].index(r)))[:30]
+            m = re.match(r"^\s*\.section\s+(\S+)(?:\s+\{#(\d+)\})?\s*$", lines[0]) if len(lines) == 1 else None
+            if not m or m.group(1) != nm or (m.group(2) is not None and int(m.group(2)) != r["lab"][0]) or (not nodes and m.group(2) is None):
+                bad("text", "section %s (#%s) printed as %r" % (nm, r["lab"][:1], lines), r)
+        elif what == "comment":
+            want = c["text"] if not nodes else "; " + c["text"]
+            if len(lines) != 1 or lines[0].strip() != want:
+                bad("text", "comment %r printed as %r" % (want[:60], [l[:80] for l in lines]), r)
+        if len(st.viol) == before:
+            st.c["dir_lines_judged"] += 1
+            st.c["dir_lines_judged:" + what] += 1
+            st.distinct.add((c["kind"], c["arch"], what, ff & 1, c.get("lk"), c.get("type"), c.get("size"), len(c.get("name", "")) > 100))
+            if len(st.samples) < 2 and what == "data" and not nodes:
+                st.samples.append({"directive": line, "log": r["log"], "bytes": r["bytes"]})
+
+
+def dir_worker(arg):
+    exe, tier, seed, scale, only = arg
+    st = Stats()
+    rng = common.Rng(seed).fork("c20-dir")
+    cases = gen_dir_cases(rng, max(40, int((2400 if tier == "quick" else 20000) * scale)), tier)
+    if only is not None:
+        cases = [c for c in cases if c["id"] in only]
+    lines = [dir_line(c) for c in cases]
+    rc, out, err = _run_driver(exe, lines)
+    if rc != 0 or common.sanitizer_report(err):
+        st.viol.append(_sanitizer_violation(exe, lines, rc, err, "directives"))
+        return st.export()
+    recs = [json.loads(l) for l in out.decode().splitlines()]
+    if len(recs) != len(cases):
+        raise common.HarnessError("drv_format returned %d records for %d directive lines" % (len(recs), len(cases)))
+    for c, rec in zip(cases, recs):
+        if rec["parse"]:
+            raise common.HarnessError("drv_format could not parse: " + dir_line(c))
+        st.c["emissions"] += len(rec["res"])
+        judge_dir(c, rec, st)
+    return st.export()
+
+
+def _dir_entry(a):
+    return ("dir", dir_worker(a))
 
 
 # ---------------------------------------------------------------------------------------------------------------------
@@ -791,9 +1122,11 @@ def run(tier, args):
             if part:
                 jobs.append((_a64_entry, (s, exe, tier, chk.seed, part)))
     if rp is None or rp.get("part") == "api":
-        napi = 1 if (rp or tier == "quick") else 16
+        napi = 1 if rp else 4 if tier == "quick" else 16
         for s_ in range(napi):
             jobs.insert(0, (_api_entry, (exe, tier, chk.seed, scale, set(rp["ids"]) if rp else None, s_, napi)))
+    if rp is None:
+        jobs.insert(0, (_dir_entry, (exe, tier, chk.seed, scale, None)))
     if rp and rp.get("part") == "lines":
         rc, out, err = _run_driver(exe, rp["lines"])
         print(out.decode(), err.decode()[-3000:])
@@ -803,7 +1136,7 @@ def run(tier, args):
     with multiprocessing.Pool(16) as pool:
         outs = pool.map(_dispatch, jobs, chunksize=1)
 
-    tot = {"x86": collections.Counter(), "a64": collections.Counter(), "api": collections.Counter()}
+    tot = {"x86": collections.Counter(), "a64": collections.Counter(), "api": collections.Counter(), "dir": collections.Counter()}
     on, off = collections.Counter(), collections.Counter()
     distinct = 0
     samples = []
@@ -840,6 +1173,7 @@ def run(tier, args):
         "x86_logger": dict(tot["x86"]),
         "a64_logger": dict(tot["a64"]),
         "formatter_api": dict(tot["api"]),
+        "directives": dict(tot["dir"]),
         "per_flag_lines_judged": {FLAG_NAMES[b]: {"on": on[b], "off": off[b]} for b in ALL_FLAGS},
         "flag_sets_per_case": 256 if tier == "thorough" else "two complementary pairs (each flag on and off for every case)",
         "objdump_cross_checks": tot["x86"]["objdump_operands_agree"] + tot["x86"]["objdump_operands_differ"],
@@ -848,11 +1182,34 @@ def run(tier, args):
         "vlib/fmttok.py (tokenizer + expected tokens) and the name tables of vlib/x86text.py / vlib/a64text.py are trusted harness code",
         "notation AsmJit documents as its own (st3, repnz, {modrm}, abs/rel, `jz|je`, `cmov.z|e`, %N virtual registers, @type annotations, "
         "omitted default lsl, v1.4s[1], FP immediates as bit patterns, hex immediates as unsigned two's complement) is accepted",
-        "the text after an immediate under kExplainImms (`{..|..}`) is not judged",
+        "the text after an immediate under kExplainImms (`{..|..}`) is judged for the instructions listed in fmttok.explain_expected (meaning of the bits from the SDM, "
+        "confirmed on the host CPU for vfpclass/vfixupimm/vrndscale/vreduce/mpsadbw); other explanations give no verdict; spellings such as GE/NLT, SAE/SPE are accepted alike",
+        "logger layout (indentation, padding) is exercised but only the CONTENT of the columns is judged: text tokens, machine code, inline comment (exact, cut at Globals::kMaxCommentSize by the logger)",
+        "directive notation (.db/.dw/.dd/.dq, .byte/.half/.word/.xword, `.repeat N`, `align N`, `.section name {#id}`, `.label`, {Count= Repeat= TotalSize=}) is AsmJit's; judged is what it denotes: "
+        "the bytes appended, sizes, counts, alignment, label and section names",
         "objdump 2.40 as second opinion only where vlib/xdec.py confirms that the bytes encode the case; other operand shapes "
         "(implicit operands, pseudo-ops) and mnemonic spellings of the decoder give no verdict",
         "rel8/rel32 operands reference a label bound immediately before the instruction or a fresh unbound label",
     ]
     if evaluations and judged == 0 and not chk.violations:
         raise common.HarnessError("no line was judged")
+    if rp is None and not chk.violations:
+        need = {
+            "imm8 explanations judged (logger)": tot["x86"]["imm_explanations_judged"],
+            "imm8 explanations judged (Formatter sweep)": tot["api"]["imm_explanations_judged"],
+            "logger lines with an inline comment (x86)": tot["x86"]["inline_comments_exact"],
+            "logger lines with an inline comment (a64)": tot["a64"]["inline_comments_exact"],
+            "logger lines with indentation / padding": tot["x86"]["lines_with_indentation_or_padding"] + tot["a64"]["lines_with_indentation_or_padding"],
+            "directive lines judged (logger)": tot["dir"]["dir_calls_dir"],
+            "directive nodes judged (format_node)": tot["dir"]["dir_calls_dirn"],
+            "data bytes transcribed": tot["dir"]["data_bytes_transcribed"],
+            "register-home operands": tot["api"]["api_reg_home_operands"],
+            "label base with index operands": tot["api"]["api_label_base_with_index_operands"],
+            "REP count register cases": tot["api"]["api_rep_count_register_cases"],
+            "long label / register names": tot["api"]["api_long_name_operands"] + tot["dir"]["label_name_chars_judged"],
+        }
+        chk.coverage["round12_dimensions"] = need
+        missing = [k for k, v in need.items() if not v]
+        if missing:
+            raise common.HarnessError("dimensions that observed nothing: " + "; ".join(missing))
     return chk.finish()
